@@ -153,6 +153,18 @@ def _extract_decode(prog, f, resolve):
                     # the path fact says p == INV: Eq(..) is true, or Ne(..) is false (`(p != INV).then_some(v)`)
                     want = 1 if t_.args[0] == "Eq" else 0
                     return (k_ == "eq" and v_ == want) or (k_ == "ne" and (1 - want) in v_)
+                if not dec:
+                    # `match p { INV => None, _ => Some(v) }`: the switch is on the parsed integer itself, the None path knows p == INV
+                    sw = [(t, v) for t, (k, v) in facts.items() if k == "eq" and t.op == "field" and t.args[0].op == "downcast"
+                          and t.args[0].args[0].op == "call" and t.args[0].args[0].args[0] == BRANCH and t.args[0].args[0].args[1][0] is pcall]
+                    if len(sw) == 1 and len([1 for t in facts if t.op not in ("discr",)]) == 1:
+                        bits_ = m["bits"]
+                        iv_ = sw[0][1]
+                        if m["kind"] != "u" and isinstance(iv_, int) and iv_ >= (1 << (bits_ - 1)):
+                            iv_ -= 1 << bits_          # switch values are the raw bit patterns of the carrier
+                        m["inv"] = iv_
+                        p_term = sw[0][0]
+                        continue
                 if len(dec) != 1 or not _holds_eq(*dec[0]):
                     return None, "None is not decided by a single equality test"
                 e = dec[0][0]
